@@ -289,6 +289,7 @@ def solve(res, caps):
         return res
     t0 = time.time()
     info, cfile, unwind = res['info'], res['cfile'], res['unwind']
+    caps = dict(caps, max_unwind=max(caps['max_unwind'], unwind + 6))   # wide-capacity families: the cap follows the capacity
     tries = []
     loopb = {}   # per-loop bounds found by deepening: "function.loopnr" -> bound
 
